@@ -80,6 +80,30 @@ def openWal (givenSize : Option Nat) (file : Buf) : Py Wal := do
     if lc ≠ (st.valid.length : Int) - 1 then .error .notImplemented
     else pure ⟨hdr, fh, nFrames, st.valid, st.invalid, st.invIdx, lc⟩
 
+/-- `openWal` with the number of frames whose construction was started (`WriteAheadLogFrame(...)`
+calls, the failing one included): a counter that survives exceptions.  Erasing it gives `openWal`
+(Proofs/Cost.lean `openWalCounted_snd`). -/
+def openWalCounted (givenSize : Option Nat) (file : Buf) : Nat × Py Wal :=
+  let fsize := match givenSize with
+    | some 0 => file.size
+    | some n => n
+    | none => file.size
+  match parseWalHeader (file.slice 0 Generated.WAL_HEADER_LENGTH) with
+  | .error e => (0, .error e)
+  | .ok hdr =>
+    let fh : FileH := ⟨fsize, file⟩
+    let frameSize : Int := Generated.WAL_FRAME_HEADER_LENGTH + hdr.pageSize
+    let nFrames : Int := Int.tdiv ((fsize : Int) - Generated.WAL_HEADER_LENGTH) frameSize
+    let r := foldlMCounted (walScanStep fh hdr) {} (List.range nFrames.toNat)
+    (r.1, do
+      let st ← r.2
+      match st.valid.getLast? with
+      | none => .error .valueError
+      | some _ =>
+        let lc := lastCommitIndex st.valid
+        if lc ≠ (st.valid.length : Int) - 1 then .error .notImplemented
+        else pure ⟨hdr, fh, nFrames, st.valid, st.invalid, st.invIdx, lc⟩)
+
 /-! ### Versions -/
 
 structure HeaderFlags where
